@@ -118,7 +118,8 @@ RerunRuleOK(w, statusrules) ==
                   LET sk == ScopeKey(w)
                       done == (DoneStatuses(E.t, sk) \ {"LOST"}) \cup PrevStatuses(E.t)
                       \* replaying: while no execution of this run has ended, a missing state decides, not the previous results
-                      forced == PrevIdx(E.t) # {} /\ ForcedByMissingState(E.t, sk) /\ DoneStatuses(E.t, sk) = {}
+                      \* (missing for the scope at its first examination, or missing for this worker right now: E.missing)
+                      forced == PrevIdx(E.t) # {} /\ (ForcedByMissingState(E.t, sk) \/ E.missing) /\ DoneStatuses(E.t, sk) = {}
                   IN /\ Note(T.norerunrule \/ ~statusrules \/ forced \/ done = {} \/ T.maxtries > 1, "C10", <<"tries-retried-without-retries", E.t, sk, done>>)
                      /\ Note(T.norerunrule \/ ~statusrules \/ forced \/ done \subseteq SeqToSet(T.rerun), "C10", <<"tries-continued-outside-rerun-set", E.t, sk, done>>)
                      /\ Note(T.norerunrule \/ ~statusrules \/ forced \/ done \cap SeqToSet(T.stop) = {}, "C10", <<"tries-continued-after-stop-status", E.t, sk, done>>)
@@ -133,7 +134,7 @@ Start == /\ Ev("start")
          /\ StartOK(E.w) /\ SourcesOK(E.w) /\ StartBudgetOK(E.w) /\ UidFresh(E.w) /\ RerunRuleOK(E.w, E.t \notin ObjRoots)
          /\ Note(~T.dry, "C02", <<"executed-in-dry-run", E.t>>)
          /\ running' = {r \in running : ~(r.t = E.t /\ r.w = E.w /\ r.pre)} \cup {[t |-> E.t, w |-> E.w, pre |-> FALSE]}
-         /\ execs' = Append(execs, [t |-> E.t, w |-> E.w, u |-> E.u, s |-> "RUN"])
+         /\ execs' = Append(execs, [t |-> E.t, w |-> E.w, u |-> E.u, s |-> "RUN", m |-> E.missing])
          /\ UNCHANGED <<pool, pres, scans, gone, ended>>
 
 PreStart == /\ Ev("prestart")
@@ -222,7 +223,9 @@ PrevCallsForRerun(t) == /\ PrevStatuses(t) \subseteq SeqToSet(T.rerun)
                         /\ PrevStatuses(t) \cap SeqToSet(T.stop) = {}
                         /\ Cardinality(PrevIdx(t)) < Budget /\ T.maxtries > 1
 ReplayOK(t) == LET ran == \E i \in ExecIdx : execs[i].t = t
-               IN /\ (PrevIdx(t) # {} /\ ~PrevCallsForRerun(t) /\ ran) => \E sk \in ScopeKeys : ForcedByMissingState(t, sk)
+               IN /\ (PrevIdx(t) # {} /\ ~PrevCallsForRerun(t) /\ ran) =>
+                        \/ \E sk \in ScopeKeys : ForcedByMissingState(t, sk)
+                        \/ \E i \in ExecIdx : execs[i].t = t /\ execs[i].m
                   /\ (PrevIdx(t) # {} /\ PrevCallsForRerun(t) /\ t \in SeqToSet(T.mustrun)) => ran
 \* the run is reported successful exactly when every executed test (grouped as the runner reports it: per worker-specific
 \* name, creation pre-steps separately) has at least one acceptable result; lost results are not reported at all
